@@ -924,6 +924,9 @@ impl StunClient {
                         events.push(StunClientEvent::OutputPacket(transaction.packet.clone()));
                     }
                     None => {
+                        // The transaction has failed: release its slot so that it no
+                        // longer counts as outstanding nor matches late responses
+                        self.transactions.remove(&transaction_id);
                         let protection_violated = self.mechanism.as_mut().is_some_and(|m| {
                             m.signal_protection_violated_on_timeout(&transaction_id)
                         });
